@@ -101,6 +101,7 @@ func checkC03(p *Prog, l *Ledger) {
 	checkScopeWiring(cs, l)
 	checkClosureWiring(cs, l, "C03/S2-scope-wiring")
 	checkNoDynamicScoping(p, l)
+	checkTreeLinks(p, l, "C03/S3-tree-links")
 }
 
 func checkEnvConstructors(p *Prog, l *Ledger) {
@@ -413,4 +414,168 @@ func checkEnvWalk(p *Prog, l *Ledger, which string, fn *ssa.Function) {
 	if len(m.G.Events("maplookup")) == 0 {
 		l.Violate(rule+"/vacuity", construct, "", "no table lookup in "+which)
 	}
+}
+
+// checkTreeLinks (S3): scopes follow the syntax tree, so the tree must keep every block where the text has one.  Decided
+// on the parser's event graphs: a parse function that returns a statement or expression *list* returns exactly the
+// results of its sub-parser calls, in order (no flattening, dropping, reordering or splicing of another node's list);
+// and a child link of a node built by the parser (a field holding a statement, an expression or a list of them) is a
+// sub-parser result, a node built on the same path, a list of those, or — where the path has tested the node kind of
+// a sub-parser result — a child taken over from that very node (assignment targets).
+func checkTreeLinks(p *Prog, l *Ledger, rule string) {
+	pi := getParser(p)
+	astPkg := p.TPkg("ast")
+	if astPkg == nil {
+		l.Undecide(rule, "ast", "", "package ast not found")
+		return
+	}
+	isChildT := func(t types.Type) bool {
+		if sl, ok := t.Underlying().(*types.Slice); ok {
+			t = sl.Elem()
+		}
+		nt := namedOf(t)
+		if nt == nil || nt.Obj().Pkg() == nil || nt.Obj().Pkg().Name() != "ast" {
+			return false
+		}
+		_, isIface := nt.Underlying().(*types.Interface)
+		return isIface
+	}
+	childField := func(kind, field string) bool {
+		obj := astPkg.Types.Scope().Lookup(kind)
+		if obj == nil {
+			return false
+		}
+		st, ok := obj.Type().Underlying().(*types.Struct)
+		if !ok {
+			return false
+		}
+		for i := 0; i < st.NumFields(); i++ {
+			if st.Field(i).Name() == field {
+				return isChildT(st.Field(i).Type())
+			}
+		}
+		return false
+	}
+	atom := regexp.MustCompile(`^(\w+#\d+|node:\w+#\d+|nil|<nil>)$`)
+	okValue := func(d string, params map[string]bool, tested map[string]bool) bool {
+		if atom.MatchString(d) || params[d] || d == "list[]" {
+			return true
+		}
+		if strings.HasPrefix(d, "list[") && strings.HasSuffix(d, "]") {
+			for _, x := range strings.Split(d[5:len(d)-1], ",") {
+				if !atom.MatchString(x) && !params[x] {
+					return false
+				}
+			}
+			return true
+		}
+		// child taken over from a sub-parser result whose node kind the path has tested
+		if i := strings.Index(d, "."); i > 0 && tested[d[:i]] {
+			return true
+		}
+		return false
+	}
+	nLists, nLinks := 0, 0
+	var found []string
+	for _, name := range pi.Names {
+		m := pi.Models[name]
+		params := map[string]bool{}
+		for _, prm := range m.Fn.Params[1:] {
+			params[prm.Name()] = true
+		}
+		res := m.Fn.Signature.Results()
+		_, retList := res.At(0).Type().Underlying().(*types.Slice)
+		retList = retList && isChildT(res.At(0).Type())
+		var problems []string
+		seenP := map[string]bool{}
+		add := func(s string) {
+			if !seenP[s] {
+				seenP[s] = true
+				problems = append(problems, s)
+			}
+		}
+		links := 0
+		for _, path := range successPaths(m) {
+			tested := map[string]bool{}
+			for _, e := range path.events {
+				if e.Op == "typetest" && e.Out == "true" {
+					tested[resolveDesc(path.desc, e.Args[0])] = true
+				}
+			}
+			if retList {
+				want := "list["
+				for i, c := range callResults(path) {
+					if i > 0 {
+						want += ","
+					}
+					want += c
+				}
+				want += "]"
+				got := path.ret
+				if strings.HasPrefix(got, "obj:") || got == "nil" {
+					got = "list[]"
+				}
+				if got != want && !(len(params) > 0 && strings.HasPrefix(got, "list[")) {
+					add(fmt.Sprintf("returns %s although the statements/expressions parsed on the path are %s: the list is not the sequence of its parts", got, want))
+				}
+			}
+			for _, n := range path.nodes {
+				for f, d := range n.fields {
+					if !childField(n.kind, f) {
+						continue
+					}
+					links++
+					if !okValue(d, params, tested) {
+						add(fmt.Sprintf("%s.%s is set to %s, which is neither a sub-parser result nor a node built here", n.kind, f, d))
+					}
+				}
+			}
+		}
+		if retList {
+			nLists++
+		}
+		nLinks += links
+		if links == 0 && !retList {
+			continue
+		}
+		found = append(found, name)
+		if len(problems) > 0 {
+			sort.Strings(problems)
+			l.Violate(rule, "parser."+name, p.Pos(m.Fn.Pos()), strings.Join(problems, " || "))
+		} else {
+			l.Discharge(rule, "parser."+name, "", fmt.Sprintf("%d child links on the explored paths are sub-parser results or nodes built there; list result intact: %v", links, retList), true)
+		}
+	}
+	l.RequireMin(rule, 12, found, "parse functions building child links or lists")
+	if nLists < 2 {
+		l.Violate(rule+"/vacuity", "list-returning parse functions", "", fmt.Sprintf("only %d list-returning parse functions seen (block and Parse expected)", nLists))
+	}
+}
+
+// callResults: descriptors of the successful sub-parser calls of a path whose results are appended to a list, in order.
+func callResults(pi *pathInfo) []string {
+	var out []string
+	for _, e := range pi.events {
+		if e.Op == "append" && len(e.Args) == 2 {
+			out = append(out, resolveDesc(pi.desc, e.Args[1]))
+		}
+	}
+	// results that were parsed but never appended
+	appended := map[string]bool{}
+	for _, x := range out {
+		appended[x] = true
+	}
+	var all []string
+	cnt := map[string]int{}
+	for _, e := range pi.events {
+		if e.Op == "call" && e.Out == "ok" {
+			cnt[e.Args[0]]++
+			d := fmt.Sprintf("%s#%d", e.Args[0], cnt[e.Args[0]])
+			all = append(all, d)
+		}
+	}
+	if len(all) != len(out) {
+		return all
+	}
+	return out
 }
